@@ -698,8 +698,8 @@ func main() {
 		n := len(es)
 		// water marks: high in {1, total-1, total, total+1}; low = every subset sum and subset sum + 1
 		highs := []string{"total+0", "total+1", "one", "total-1"}
-		if r.Quick() {
-			highs = highs[:3]
+		if r.Quick() || n == 4 {
+			highs = highs[:3] // total-1 behaves like total; left out in the quick tier and for 4 entries
 		}
 		for _, compress := range []bool{false, true} {
 			for _, strays := range []bool{false, true} {
